@@ -154,7 +154,7 @@ def run_check(check_id: str, tier: str, seed: int) -> int:
             json.dump(v2, f, indent=1)
         with open(path[:-5] + ".py", "w") as f:
             f.write(REPLAY_PY.format(root=ROOT, path=path, check=check_id, msg=v["msg"].replace('"""', "'''")))
-        lines.append(f"VIOLATION property={check_id} replay={path}  # {v['kind']}: {v['msg'][:300]} (x{viol_counts.get(key, 1)})")
+        lines.append(f"VIOLATION property={check_id} replay={path}\n  # {v['kind']}: {v['msg'][:300]} (x{viol_counts.get(key, 1)})")
         if len(lines) >= 8:
             break
     for what, n in known_hits.items():
